@@ -513,6 +513,19 @@ func verifC10Sys(id string, seed int64) *verifSys {
 		if smp == "refresh" {
 			m.NRefresh, m.NKey, m.NEnd = 1, 0, 0
 		}
+		if smp == "tiny" {
+			// boundary values of the randomness source: tiny D-H exponents, so that public keys and shared secrets
+			// are short integers (2^(x*y)): 1 byte, 191 bytes (one leading zero byte in the group's width), exactly
+			// 192 bytes — every length-dependent step of the key derivation (MPI of the secret) is exercised
+			exps := [2][]int64{{39, 8, 3, 1, 7, 191}, {39, 191, 5, 2, 1, 8}}
+			for i := 0; i < 2; i++ {
+				for _, e := range exps[i] {
+					b := make([]byte, 40)
+					binary.BigEndian.PutUint64(b[32:], uint64(e))
+					w.P[i].R.Script = append(w.P[i].R.Script, b)
+				}
+			}
+		}
 		w.Mon = m
 		return w
 	}
@@ -870,10 +883,10 @@ func init() {
 		Run: func(r *verifReport) {
 			r.Rule = "(a) explicit-state exploration of honest session histories from the query on (one or both sides asking, texts both ways with key rotation, SMP, extra symmetric key, End; fragmented or not; every delivery interleaving): EVERY emitted message is parsed by the independent implementation verifref (standard library only, written from the specification) and re-derived from both sides' secrets, which are found in the logs of the randomness sources by verification (g^d, commitment hash), never by call site: commit hash and ciphertext, D-H key, SSID, c/c', m1/m1', m2/m2', the decrypted signature block (long-term key, key id, DSA signature validity over M), data-message key ids per the specification's ratchet, next D-H key, counter, session keys with the high/low-end rule, MAC, plaintext layout, extra symmetric key, and the whole data message rebuilt byte for byte; (b) a reference peer written from the specification talks to the real conversation in both exchange roles: all interleavings of texts both ways, extra-key requests both ways and End: everything the reference builds must be accepted and read exactly, and vice versa; SSID, fingerprint and extra keys must agree"
 			r.Assumptions = []string{"verifref shares with otr3 only the Go standard library (crypto/dsa, aes, sha, hmac); it does not implement SMP (the SMP proofs are not re-derived independently)", "signature bytes are verified, not re-derived (DSA is randomised)"}
-			idsA := []string{"v3/f0/S2/nosmp", "v2/f0/S1/smp", "v3/f200/S1/nosmp", "v3/f0/S2/refresh", "v2/f0/S1/refresh"}
+			idsA := []string{"v3/f0/S2/nosmp", "v2/f0/S1/smp", "v3/f200/S1/nosmp", "v3/f0/S2/refresh", "v2/f0/S1/refresh", "v3/f0/S2/tiny", "v2/f0/S2/tiny"}
 			idsB := []string{"peer/v3/refinit/f0/S2", "peer/v3/realinit/f0/S1", "peer/v2/refinit/f0/S1", "peer/v2/realinit/f150/S1"}
 			if r.Tier == "thorough" {
-				idsA = []string{"v2/f150/S1/smp", "v3/f200/S2/nosmp", "v2/f0/S2/refresh", "v3/f0/S2/refresh", "v2/f0/S2/smp", "v3/f0/S3/nosmp"}
+				idsA = []string{"v2/f150/S1/smp", "v3/f200/S2/nosmp", "v2/f0/S2/refresh", "v3/f0/S2/refresh", "v2/f0/S2/smp", "v3/f0/S3/nosmp", "v3/f0/S3/tiny", "v2/f0/S3/tiny"}
 				idsB = []string{"peer/v3/refinit/f0/S3", "peer/v3/realinit/f0/S3", "peer/v2/refinit/f0/S3", "peer/v2/realinit/f0/S3", "peer/v3/realinit/f150/S2", "peer/v2/refinit/f150/S2"}
 			}
 			for _, id := range idsB {
